@@ -454,9 +454,9 @@ def check_hr(run, bp, g, cards):
 
 
 RT_CFGS = [Cfg(max_depth=4, quant_unbounded=True, sorts=PSORTS), Cfg(max_depth=3, share=15),
-           Cfg(max_depth=4, theories={"bool", "int", "real", "arr", "uf", "quant"}, quant_unbounded=True)]
+           Cfg(max_depth=4, theories={"bool", "int", "real", "arr", "uf", "quant"}, quant_unbounded=True, pow=True)]
 HR_CFG = Cfg(max_depth=4, theories={"bool", "int", "real", "bv", "arr", "uf", "str", "quant"}, quant_unbounded=True,
-             bv_widths=[1, 4, 8], strings=["", "a", "ab", "0", "x y", "12"], pow=False)
+             bv_widths=[1, 4, 8], strings=["", "a", "ab", "0", "x y", "12"], pow=True)
 
 
 def shard(shard, seed, n, part):
